@@ -116,7 +116,11 @@ static void out_gt(const gt_t p) {
 #define WIN_ON()	(sim_alloc.active = 1)
 #define WIN_OFF()	(sim_alloc.active = 0)
 /* the call under test runs inside the fault window */
-#define W(stmt) do { WIN_ON(); stmt; WIN_OFF(); } while (0)
+/* a call that returns normally must leave the handler chain as it found it: a chain left pointing into
+ * the returned frame makes the next reported error read dead stack storage */
+static int chain_bad;
+#define W(stmt) do { sts_t *_chain = core_get()->last; WIN_ON(); stmt; WIN_OFF(); \
+	if (core_get()->last != _chain) { chain_bad = 1; core_get()->last = _chain; } } while (0)
 
 /*============================================================================*/
 /* Input construction                                                         */
@@ -145,6 +149,18 @@ static void setup_inputs(void) {
 	if (strcmp(size_cls, "zero") == 0) { bn_zero(B[0]); bn_zero(B[1]); }
 	if (strcmp(size_cls, "one") == 0) { bn_set_dig(B[0], 1); bn_set_dig(B[1], 1); }
 	if (strcmp(size_cls, "order") == 0) { bn_copy(B[0], n); bn_sub_dig(B[1], n, 1); }
+	/* scalars that reduce to zero only after reduction, negative ones, zero digits inside recodings */
+	if (strcmp(size_cls, "order2") == 0) { rnd_bn(B[0], 256); bn_copy(B[1], n); }
+	if (strcmp(size_cls, "order3") == 0) { bn_dbl(B[0], n); bn_add_dig(B[1], n, 1); }
+	if (strcmp(size_cls, "negord") == 0) { bn_neg(B[0], n); bn_set_dig(B[1], 1); bn_neg(B[1], B[1]); }
+	if (strcmp(size_cls, "zdig") == 0) {
+		for (int i = 0; i < NB; i++) { rnd_bn(B[i], 256); if (B[i]->used >= 4) { B[i]->dp[1] = 0; B[i]->dp[2] = (i & 1) ? 0 : B[i]->dp[2] << 40; } }
+	}
+	if (strcmp(size_cls, "lowzero") == 0) {
+		for (int i = 0; i < NB; i++) { rnd_bn(B[i], 250); if (B[i]->used >= 4) { B[i]->dp[0] = 0; B[i]->dp[1] = (i & 1) ? 0 : B[i]->dp[1] & ~(dig_t)0xFFFFFF; } }
+	}
+	if (strcmp(size_cls, "pow2") == 0) { bn_set_2b(B[0], 255); bn_set_2b(B[1], 64); bn_set_2b(B[3], 128); }
+	if (strcmp(size_cls, "ones") == 0) { bn_set_2b(B[0], 256); bn_sub_dig(B[0], B[0], 1); bn_set_2b(B[1], 192); bn_sub_dig(B[1], B[1], 1); }
 	/* B[2]: odd modulus >= 3; B[3]: exponent; B[4]: second odd modulus */
 	if (bn_is_even(B[2])) bn_add_dig(B[2], B[2], 1);
 	if (bn_cmp_dig(B[2], 3) == RLC_LT) bn_set_dig(B[2], 1000003);
@@ -873,6 +889,7 @@ static void run_op(const op_t *op, const uint8_t *seed, size_t seed_len, uint64_
 	sim_alloc.fill_on = 1;
 	sim_scrub_stack(fill ^ 0x5555);
 	*thrown = 0;
+	chain_bad = 0;
 	RLC_TRY {
 		op->run();
 	} RLC_CATCH_ANY {
@@ -927,7 +944,7 @@ static void engine_run(void) {
 		run_op(op, seed, (size_t)sl, fb, 0, 0, &thrown);
 		int same = (out_len == base_len && memcmp(base, outbuf, out_len) == 0 && thrown == thrown0);
 		(void)err_get_code();
-		tr_printf("OP %s A=%ld thrown=%d code=%d live=%ld filldiff=%d out=", op->name, A, thrown0, code0, live0, !same);
+		tr_printf("OP %s A=%ld thrown=%d code=%d live=%ld filldiff=%d chain=%d out=", op->name, A, thrown0, code0, live0, !same, !chain_bad);
 		tr_hex(base, base_len > 96 ? 96 : base_len);
 		tr_str("\n");
 		if (!same) {
